@@ -46,7 +46,7 @@ def check(case, M):
     def fail(kind, what, detail):
         f = {"kind": kind, "what": what, "detail": detail}
         if fid:
-            f["finding"] = fid
+            f["finding"] = fid.get("other") if isinstance(fid, dict) else fid
         failures.append(f)
     common_failures(case, r, failures)
     ys = B.flat(r["steps"])
